@@ -183,11 +183,17 @@ def leg_miri(leg, pid, tier, seed, rundir, gvh, root):
     seeds = leg.get("many_seeds")
     if seeds:
         flags += f" -Zmiri-many-seeds=0..{seeds}"
-    env = _env({"MIRIFLAGS": flags.strip(), "RAYON_NUM_THREADS": str(leg.get("threads", 1))})
+    # GVH_NO_LARGE: the interpreter is ~4 orders of magnitude slower than the machine; the strata of realistic size
+    # (hundreds of coordinates with quadratic oracles) are left to the native shards and the ASan legs
+    env = _env({"MIRIFLAGS": flags.strip(), "RAYON_NUM_THREADS": str(leg.get("threads", 1)), "GVH_NO_LARGE": "1"})
     out = os.path.join(rundir, "miri_out.json")
     args = [a.replace("{out}", out).replace("{seed}", str(seed)) for a in leg["args"]]
     cmd = ["cargo", "+nightly", "miri", "run", "--offline", "--target-dir", os.path.join(BUILD, "miri"), "--"] + args
-    p = subprocess.run(cmd, cwd=HARNESS, env=env, stdout=subprocess.PIPE, stderr=subprocess.PIPE, text=True, timeout=leg.get("timeout", 5400))
+    try:
+        p = subprocess.run(cmd, cwd=HARNESS, env=env, stdout=subprocess.PIPE, stderr=subprocess.PIPE, text=True, timeout=leg.get("timeout", 5400))
+    except subprocess.TimeoutExpired:
+        # a wall-clock limit on an interpreter is no verdict about geo
+        return _unavailable("miri", f"no result within {leg.get('timeout', 5400)} s (wall clock)")
     err = p.stderr
     ub = re.search(r"error: Undefined Behavior[^\n]*|error: .*data race[^\n]*|error: unsupported operation[^\n]*", err)
     if ub and "unsupported operation" in ub.group(0):
